@@ -273,8 +273,9 @@ def run(ctx):
             alts = []
             for _ in range(w):
                 t = tnames.pop() if tnames else f't{rng.randrange(99)}'
-                al = gen.pick(rng, (None, None, 'A', 'B', 'C', 'D'))
-                rf = gen.pick(rng, (None, None, 'A', 'B', 'C', 'D'))
+                names = ('A', 'B', 'C', 'D') if i % 3 else ('M', 'Msg', 'sg', 'BA', 'A', 'aM')  # names inside one another
+                al = gen.pick(rng, (None, None) + names[:4])
+                rf = gen.pick(rng, (None, None) + names)
                 if rng.random() < 0.6:
                     # bias towards valid bindings: reference something bound by an earlier position
                     seen = [a[1] for q in spec.values() for a in q if a[1]]
